@@ -35,7 +35,6 @@ VARIABLES mut,      \* universe part: the mutant record [op, req, how] (req.prev
 allvars == <<pvars, mut, tid, l>>
 
 M == INSTANCE MC_MapDenote WITH case <- 0, Rich <- RichM, Shard <- ShardM, NShards <- NShardsM
-MR == INSTANCE MC_MapDenote WITH case <- 0, Rich <- TRUE, Shard <- 0, NShards <- 1    \* CaseOK without the restriction of the lean universe
 P == INSTANCE MC_PipelineCall WITH d <- 0, phase <- "idle", out <- "", kw <- <<>>, mode <- "call", done <- {},
                                    Rich <- RichP, Shard <- ShardP, NShards <- NShardsP
 
@@ -237,7 +236,9 @@ IllFormedCallMutants(b, entries) ==
 (* is true of the PRODUCER's MapSpec; it says nothing about what a consumer writes, so every output name has to be        *)
 (* looked at.  The universe: the C01 cases with a second output y2 and a consumer that has a MapSpec (all consumer kinds,  *)
 (* also those the lean C01 universe leaves out for tuple outputs).                                                         *)
-TupleCases == {c \in M!MapCases : MR!CaseOK(c) /\ c.multi /\ c.cons \in {"elementwise", "partial", "zipnew"}}
+(* (written as: every well-formed single-output case with a mapped consumer, given the second output) *)
+TupleCases == {[c EXCEPT !.multi = TRUE] :
+                  c \in {x \in M!MapCases : ~x.multi /\ M!CaseOK(x) /\ x.cons \in {"elementwise", "partial", "zipnew"}}}
 SumSizes(sz) == LET RECURSIVE S(_)
                     S(D) == IF D = {} THEN 0 ELSE LET a == CHOOSE a \in D : TRUE IN sz[a] + S(D \ {a})
                 IN S(DOMAIN sz)
